@@ -3,6 +3,7 @@
 From Coq Require Import Permutation.
 From ACV Require Import Base.Strs Model.Sched Model.SharedRef Model.Report Proofs.SchedProofs Proofs.ReportProofs.
 From ACV Require Import Extracted.SharedFacts Extracted.RangeFacts.
+From ACV Require Model.Interleave Proofs.InterleaveProofs.
 Local Open Scope list_scope.
 
 (* ties: every loop over a Go map in the non-test code is one of the classified, order-insensitive ones; the
@@ -29,9 +30,29 @@ Proof.
   intros s Hg. destruct (run_only_gen s {| counter := 0; handed := [] |} Hg) as [_ Hn]. rewrite Hn. reflexivity.
 Qed.
 
+(* the shape of the whole argument (Model/Interleave.v): a call is a program over its own state plus numbers taken from the
+   shared counter; an observation that is blind to WHICH numbers were handed (a report - generated names are internal to the
+   module - or the generated code up to its numbering) is the same under every schedule, in every process, whatever else runs:
+   same program (same inputs), same initial state, same observation *)
+Module I := Interleave.
+Module IP := InterleaveProofs.
+Theorem C06_same_inputs_same_observation : forall (P O : Type) (obs : P -> O) (prog : list (I.op P)) (p : P),
+  IP.number_blind P O obs p prog ->
+  forall (s s' : I.schedule P) (w w' : I.world P) t t',
+  I.program_of t s = prog -> I.program_of t' s' = prog -> I.priv w t = p -> I.priv w' t' = p ->
+  obs (I.priv (I.run w s) t) = obs (I.priv (I.run w' s') t').
+Proof. exact IP.same_inputs_same_observation. Qed.
+(* and a call by itself in a fresh process gets the numbers 1, 2, 3, ... : its generated code is the same text every time *)
+Theorem C06_fresh_process_same_state : forall (P : Type) (prog : list (I.op P)) (w w' : I.world P) t,
+  I.ctr w = I.ctr w' -> I.priv w t = I.priv w' t ->
+  I.priv (I.run w (map (fun o => (t, o)) prog)) t = I.priv (I.run w' (map (fun o => (t, o)) prog)) t.
+Proof. intros P prog w w' t Hc Hp. rewrite !IP.noninterference, Hc, Hp. reflexivity. Qed.
+
 Print Assumptions C06_tie_map_ranges.
 Print Assumptions C06_tie_document_order.
 Print Assumptions C06_tie_counter.
 Print Assumptions C06_merge_order_irrelevant.
 Print Assumptions C06_ids_from_paths.
 Print Assumptions C06_fresh_process_numbers.
+Print Assumptions C06_same_inputs_same_observation.
+Print Assumptions C06_fresh_process_same_state.
